@@ -43,6 +43,11 @@ type Scn struct {
 	// and tasks are queued (all Submit calls have returned). Queued tasks may be
 	// dropped; the in-flight limit holds throughout.
 	CloseEarly bool `json:"close_early,omitempty"`
+	// CloseDuringWait: in the last round another goroutine closes the pool while
+	// the waiter is inside Wait and every task of the round is still running
+	// (none is queued). Close does not interrupt tasks: Wait still returns only
+	// after they have finished.
+	CloseDuringWait bool `json:"close_during_wait,omitempty"`
 }
 
 func gen(prop, tier string, r *rand.Rand, idx int) any {
@@ -162,6 +167,17 @@ func gen(prop, tier string, r *rand.Rand, idx int) any {
 			}
 			sc.Rounds = append(sc.Rounds, rd)
 		}
+	}
+	if prop == "C12" && r.IntN(8) == 0 {
+		sc.Mode = "closegate"
+		sc.MainSubmits = r.IntN(2) == 0
+		sc.CloseDuringWait = true
+		var ts []Task
+		for k := 1 + r.IntN(eff); k > 0; k-- { // at most one task per worker: nothing stays queued
+			ts = append(ts, Task{ID: id})
+			id++
+		}
+		sc.Rounds = []Round{{Subs: [][]Task{ts}}}
 	}
 	if prop == "C08" && r.IntN(8) == 0 {
 		sc.Mode = []string{"last", "free"}[r.IntN(2)]
@@ -336,6 +352,7 @@ func run(t *testing.T, prop string, x any, cfg simrt.Config) *eng.Outcome {
 		need[ri] = min(eff, n)
 	}
 	var pool *flyt.WorkerPool
+	poolClosed, waitCalled := false, false // (read and written inside the scheduler only)
 	o_nested := false
 	var body func(tk Task)
 	body = func(tk Task) {
@@ -355,6 +372,10 @@ func run(t *testing.T, prop string, x any, cfg simrt.Config) *eng.Outcome {
 		case "barrier":
 			simrt.EmitWhen(simrt.Event{Kind: "task_end", I: tk.ID, N: ri}, func() bool { return started[ri] >= need[ri] }, nil)
 			return
+		case "closegate":
+			// runs until the pool has been closed, and then until nothing else can make a move
+			simrt.YieldCond("task_until_closed", func() bool { return poolClosed }, nil)
+			simrt.YieldLast("task_body")
 		case "last":
 			simrt.YieldLast("task_body")
 		default:
@@ -417,9 +438,24 @@ func run(t *testing.T, prop string, x any, cfg simrt.Config) *eng.Outcome {
 					simrt.Emit(simrt.Event{Kind: "wait_returned", N: ri, V: w})
 				})
 			}
-			simrt.Emit(simrt.Event{Kind: "wait_called", N: ri})
+			var closerJoin simsync.WaitGroup
+			if sc.CloseDuringWait && ri == len(sc.Rounds)-1 {
+				closerJoin.Add(1)
+				n := 0
+				for _, s := range rd.Subs {
+					n += len(s)
+				}
+				simrt.Go("closer", func() {
+					defer closerJoin.Done()
+					simrt.YieldCond("closer_waits", func() bool { return waitCalled && started[ri] >= n }, nil)
+					pool.Close()
+					simrt.EmitThen(simrt.Event{Kind: "closed"}, func() { poolClosed = true })
+				})
+			}
+			simrt.EmitThen(simrt.Event{Kind: "wait_called", N: ri}, func() { waitCalled = true })
 			pool.Wait()
 			simrt.Emit(simrt.Event{Kind: "wait_returned", N: ri})
+			closerJoin.Wait()
 			waitJoin.Wait()
 			if len(rd.Late) > 0 {
 				lateJoin.Wait()
@@ -427,8 +463,10 @@ func run(t *testing.T, prop string, x any, cfg simrt.Config) *eng.Outcome {
 				simrt.Emit(simrt.Event{Kind: "wait_quiesced", N: ri})
 			}
 		}
-		pool.Close()
-		simrt.Emit(simrt.Event{Kind: "closed"})
+		if !sc.CloseDuringWait {
+			pool.Close()
+			simrt.Emit(simrt.Event{Kind: "closed"})
+		}
 	})
 	o := &eng.Outcome{Res: res, Faults: map[string]int{}, Probes: map[string]int{}}
 	if o_nested {
